@@ -175,6 +175,7 @@ def check_r4b(eng, rep, cache_writes):
     prog = eng.prog
     seen = set()
     n = {"D1": 0, "D2": 0, "D3": 0, "D4": 0, "D5": 0, "scratch": 0}
+    d2_events = []
     # cache objects (re)assigned in some entry: fills of such an object are part of building it
     assigned = set()
     for ename, fi, cq, ev, chain, l in cache_writes:
@@ -187,10 +188,10 @@ def check_r4b(eng, rep, cache_writes):
             # a write *inside* the object kept in a cache
             idx = max(i for i, p in enumerate(l[1]) if p == fieldname)
             holder = (l[0], l[1][: idx + 1])
-            if (ename, holder) in assigned:
+            if (ename, holder) in assigned and CACHE_FIELDS[fieldname][0] in ("D1", "D3"):
                 continue
         disc = CACHE_FIELDS[fieldname][0]
-        key = (ev.site.func, ev.site.text, fieldname)
+        key = (ev.site.func, ev.site.text, ev.site.line, ev.wkind, fieldname)
         if key in seen:
             continue
         seen.add(key)
@@ -200,11 +201,11 @@ def check_r4b(eng, rep, cache_writes):
         elif disc == "D5":
             check_d5(eng, rep, ename, ev, chain, l, fieldname)
         elif disc == "D2":
-            pass        # decided structurally below
+            d2_events.append((ename, ev, chain, l))
         else:
             rep.holds("R4b", "C19.R4b-scratch", ev.site.func, "scratch-write:" + fieldname,
                       "write to declared scratch field (no answer is read from it across calls)", nontrivial=False)
-    check_d2(eng, rep)
+    check_d2(eng, rep, d2_events)
     check_d3(eng, rep)
     check_d4(eng, rep)
     check_d5_reads(eng, rep)
@@ -269,32 +270,42 @@ def _has_none_guard(ev) -> bool:
     return False
 
 
-def check_d2(eng, rep):
-    """scratch-restore: every in-place decrement of CFG._remaining_lists is undone on every path to every exit."""
+def check_d2(eng, rep, d2_events):
+    """scratch-restore: every in-place update of the shared counters CFG._remaining_lists (reached through any alias:
+    the write events carry the location) is undone on every path to every exit of the function that performs it."""
     prog = eng.prog
+    by_func = {}
+    for ename, ev, chain, l in d2_events:
+        by_func.setdefault(ev.func.qname, []).append((ename, ev, chain, l))
     n = 0
-    for fi in prog.classes[CFG].methods.values():
-        decs = []
-        for sub in ast.walk(fi.node):
-            if isinstance(sub, ast.AugAssign) and "_remaining_lists" in ast.unparse(sub.target) and \
-                    ast.unparse(sub.target).startswith("self."):
-                decs.append(sub)
+    for fq, evs in sorted(by_func.items()):
+        fi = evs[0][1].func
+        nodes = {id(ev.node) for _, ev, _, _ in evs}
+        if fi.name == "_set_impacts_and_remaining_lists" or fi.name == "__init__":
+            continue      # builds the structure (D1 fill under the None guard)
+        decs = [sub for sub in ast.walk(fi.node) if isinstance(sub, ast.AugAssign) and id(sub.target) in nodes]
+        other = [ev for _, ev, _, _ in evs if ev.wkind != "augassign"]
         subs = [d for d in decs if isinstance(d.op, ast.Sub)]
         adds = [d for d in decs if isinstance(d.op, ast.Add)]
+        n += 1
+        if other and not subs:
+            ev = other[0]
+            rep.violation("R4b", "C19.R4b-D2", fq, "scratch-overwrite:_remaining_lists",
+                          "the shared counters are overwritten (%s) outside the function that builds them" % ev.wkind,
+                          site=ev.site.to_json())
+            continue
         if not subs:
             continue
-        n += 1
         ok, why, node = _restore_pairing(fi, subs, adds)
         if ok:
-            rep.holds("R4b", "C19.R4b-D2", fi.qname, "scratch-restore:_remaining_lists",
+            rep.holds("R4b", "C19.R4b-D2", fq, "scratch-restore:_remaining_lists",
                       "every decrement is logged and the restore loop runs on every path to every exit")
         else:
-            rep.violation("R4b", "C19.R4b-D2", fi.qname, "scratch-restore:_remaining_lists", why,
-                          site=site_of(prog, fi, node or fi.node))
+            rep.violation("R4b", "C19.R4b-D2", fq, "scratch-restore:_remaining_lists", why,
+                          site=site_of(prog, fi, node or fi.node), path=[evs[0][0]])
     if n == 0:
-        # the counters may legitimately be copied instead (generate_epsilon does): nothing to pair
         rep.holds("R4b", "C19.R4b-D2", CFG + "._get_generating_or_nullable", "scratch-restore:none",
-                  "no in-place decrement of the shared counters exists", nontrivial=False)
+                  "no in-place update of the shared counters exists (they are copied first)", nontrivial=False)
 
 
 def _restore_pairing(fi, subs, adds):
